@@ -103,6 +103,7 @@ func (e *concEng) Gen(r *Rand, thorough bool, idx int) Case {
 // attribution is exact however long a call is preempted.
 type concStore struct {
 	counter *atomic.Int64
+	preload []resource.Resource // what the store holds before the first call: delivered by Load, slowly
 }
 
 type concCommitKey struct{}
@@ -127,7 +128,21 @@ func (s *concStore) Destroy(ctx context.Context, _ resource.Type, _ resource.Poi
 	return nil
 }
 
-func (s *concStore) Load(context.Context, inmem.LoadHandler) error { return nil }
+// Load delivers the persisted resources one by one with pauses: the first calls of several workers overlap the
+// initial load and must all wait for it.
+func (s *concStore) Load(_ context.Context, h inmem.LoadHandler) error {
+	for _, r := range s.preload {
+		time.Sleep(200 * time.Microsecond)
+
+		if err := h(r.Metadata().Type(), r.DeepCopy()); err != nil {
+			return err
+		}
+	}
+
+	time.Sleep(200 * time.Microsecond)
+
+	return nil
+}
 
 type concCall struct {
 	lo, hi, commit int64
@@ -144,7 +159,24 @@ func (e *concEng) Trace(_ *testing.T, sc Case) (Case, []string) {
 
 	var counter atomic.Int64
 
+	// two resources are in the backing store before the first call (version 1, committed "at instants 1 and 2")
+	var (
+		preOps  []string
+		preOuts []string
+	)
+
 	bs := &concStore{counter: &counter}
+
+	for _, id := range []string{"p", "q"} {
+		r := NewTRes("n1", "T1", id)
+		r.md.SetVersion(resource.VersionUndefined.Next())
+		r.spec = TSpec{S: "pre"}
+		bs.preload = append(bs.preload, r)
+
+		t := counter.Add(1)
+		preOps = append(preOps, fmt.Sprintf("create ns=n1 typ=T1 id=%s ver=undefined owner= phase=running fins= labels= c=0 u=0 spec=pre as= lo=0 hi=%d commit=%d", id, 1000000000, t))
+		preOuts = append(preOuts, concMask("ok "+ResStr(r))+" lin=ok")
+	}
 
 	var st state.CoreState
 	if h["flavour"] == "inmem" {
@@ -178,7 +210,7 @@ func (e *concEng) Trace(_ *testing.T, sc Case) (Case, []string) {
 			known := map[string]int{} // last version this worker saw per id
 
 			for i := 0; i < calls/workers+1; i++ {
-				id := Pick(r, []string{"a", "a", "b"})
+				id := Pick(r, []string{"a", "a", "b", "p", "q"})
 
 				var op string
 
@@ -252,9 +284,8 @@ func (e *concEng) Trace(_ *testing.T, sc Case) (Case, []string) {
 	sort.Slice(writes, func(i, j int) bool { return writes[i].commit < writes[j].commit })
 	sort.Slice(others, func(i, j int) bool { return others[i].lo < others[j].lo })
 
-	derived := Case{Header: sc.Header}
-
-	var outs []string
+	derived := Case{Header: sc.Header, Ops: preOps}
+	outs := preOuts
 
 	for _, c := range writes {
 		derived.Ops = append(derived.Ops, fmt.Sprintf("%s lo=%d hi=%d commit=%d", c.op, c.lo, c.hi, c.commit))
